@@ -14,7 +14,7 @@ KINDS = {
             "OkWithoutResponse", "Panic"},
     "C02": {"MutualExclusion", "ClaimNotFree", "Lifecycle", "WriteWhileViewed", "ViewOverlap", "Panic"},
     "C03": {"Leak", "LeakAfterProbe", "Panic"},
-    "C06": {"TooManyTransmissions", "TransmissionCount", "RetransmitDiffers", "OkWithoutResponse",
+    "C06": {"TooManyTransmissions", "TransmissionCount", "RetransmitDiffers", "OkWithoutResponse", "ResponseLostToDeadline",
             "Misroute", "ViewChanged", "MutualExclusion", "WriteWhileViewed", "ViewOverlap",
             "ClaimNotFree", "Leak", "LeakAfterProbe", "Panic", "Stuck"},
 }
@@ -69,6 +69,7 @@ class Engine:
         self.sched_count = 0
         self.distinct = set()
         self.band = "A"
+        self.traps = []
 
     # -- model checking -------------------------------------------------------------------
     def mc(self, name, sc, invariants=(), properties=(), constraints=(), workers=8, timeout=900,
@@ -126,6 +127,35 @@ class Engine:
             # verdict of the monitor on seeded runs - report as divergence for the evidence
             self.verdict.divergences.append(dict(kind="model-liveness-counterexample", mc=name, props=props))
         return r
+
+    def trap(self, trapname, sc, timeout=120):
+        """Model-based test generation: have TLC find a shortest schedule into a branch of the specification
+        (trap property), replay it on the real loop, drain, and let the monitor judge the execution."""
+        consts = model_constants(sc)
+        consts["MaxChoice"] = max_choice(sc)
+        consts["EmitSchedules"] = False
+        cfg = lib.cfg_text(spec="MCSpec", view="MCView", constants=consts, invariants=[f"NotTrap_{trapname}"],
+                           constraints=["IndexConstraint"])
+        d = os.path.join(self.wd, f"trap-{trapname}")
+        os.makedirs(d, exist_ok=True)
+        r = lib.tlc(d, "PduLoopMC", cfg, workers=4, timeout=timeout)
+        self.states += r.distinct
+        self.transitions += r.generated
+        hist = r.hist() if r.violated else None
+        self.traps.append(dict(trap=trapname, reached=bool(hist), steps=len(hist) if hist else 0,
+                               distinct=r.distinct, wall_s=round(r.wall, 1)))
+        if r.error and r.error != "timeout":
+            raise lib.ToolError(f"TLC error in trap {trapname}: {r.error}")
+        if not hist:
+            lib.log(f"trap {trapname}: not reached ({r.distinct} states, {r.wall:.0f}s)")
+            return
+        line = {"cfg": harness_cfg(sc), "steps": hist, "seed": lib.seed(), "id": f"trap-{trapname}"}
+        pth = os.path.join(self.wd, f"trap-{trapname}.ndjson")
+        with open(pth, "w") as fh:
+            fh.write(json.dumps(line) + "\n")
+        self.sched_count += 1
+        lib.log(f"trap {trapname}: reached in {len(hist)} steps ({r.wall:.0f}s)")
+        self.replay_and_validate(pth, sc, tag=f"trap-{trapname}")
 
     def handle_counterexample(self, name, sc, r):
         """A model-level counterexample is only a verdict about the code if the code reproduces it."""
@@ -351,6 +381,7 @@ class Engine:
             traces_validated_against_impl=self.traces_strict,
             traces_monitored=self.traces_total,
             tlc_behaviours_replayed=self.sched_count,
+            trap_schedules=self.traps,
             events=self.events,
             samples=self.samples or [{"note": "no trace recorded"}],
             model_checking_runs=self.mc_runs,
@@ -451,6 +482,34 @@ def scenarios(pid, tier):
     raise lib.ToolError(f"no scenarios for {pid}")
 
 
+TRAPS = {
+    "C01": [("ScanSkipsUnsent", dict(BASE, n=2)), ("WakeBeforeFirstPoll", dict(BASE, apps=1)),
+            ("ClaimDuringRelease", dict(BASE)), ("ClaimWhileViewHeld", dict(BASE)), ("AllocRetry", dict(BASE)),
+            ("AllocFail", dict(BASE))],
+    "C02": [("ClaimWhileViewHeld", dict(BASE)), ("ClaimDuringRelease", dict(BASE)), ("AllocRetry", dict(BASE, n=2)),
+            ("RxClaimFails", dict(BASE, dup_budget=1)), ("TxUnclaimAfterRelease", dict(BASE, send_fail_budget=1)),
+            ("ScanSkipsUnsent", dict(BASE, n=2))],
+    "C03": [("AllocFail", dict(BASE)),
+            ("AbandonInSendable", dict(BASE, apps=1, allow_abandon=True, early_response=True)),
+            ("AbandonInSent", dict(BASE, apps=1, allow_abandon=True, early_response=True)),
+            ("AbandonInRxDone", dict(BASE, apps=1, allow_abandon=True, early_response=True)),
+            ("ReleaseInSent", dict(BASE, apps=1, allow_timer=True, early_response=True)),
+            ("ReleaseInSendable", dict(BASE, apps=1, allow_timer=True, early_response=True)),
+            ("ReleaseInRxDone", dict(BASE, apps=1, allow_timer=True, early_response=True))],
+    "C06": [("ResponseAtDeadlineLast", dict(BASE, apps=1, allow_timer=True, early_response=True)),
+            ("ResponseAtDeadlineRetry", dict(BASE, apps=1, retry_set=[1], allow_timer=True, early_response=True)),
+            ("RetryCasFails", dict(BASE, apps=1, retry_set=[1], allow_timer=True, early_response=True)),
+            ("ReleaseInRxDone", dict(BASE, apps=1, allow_timer=True, early_response=True)),
+            ("ReleaseInSent", dict(BASE, allow_timer=True, early_response=True, timer_apps=[0])),
+            ("TxMarkAfterRelease", dict(BASE, allow_timer=True, early_response=True, timer_apps=[0])),
+            ("TxUnclaimAfterRelease", dict(BASE, allow_timer=True, early_response=True, timer_apps=[0], send_fail_budget=1)),
+            ("RxMarkAfterRelease", dict(BASE, allow_timer=True, early_response=True, timer_apps=[0])),
+            ("AbandonInSending", dict(BASE, allow_abandon=True, early_response=True, timer_apps=[0])),
+            ("AbandonInRxBusy", dict(BASE, allow_abandon=True, early_response=True, timer_apps=[0])),
+            ("ReleaseInSending", dict(BASE, allow_timer=True, early_response=True, timer_apps=[0])),
+            ("ReleaseInRxBusy", dict(BASE, allow_timer=True, early_response=True, timer_apps=[0]))],
+}
+
 ASSUME = {
     "all": [
         "Interleavings are sequentially consistent (token-passing scheduler); weakening a memory ordering without changing the operation is invisible.",
@@ -478,6 +537,8 @@ def run(pid, tier):
         eng.band = "B"
         eng.mc("bandB-" + name, s, invariants=invs, timeout=to)
         eng.band = "A"
+    for trapname, s in TRAPS.get(pid, []):
+        eng.trap(trapname, s)
     for name, s, num in sc["sim"]:
         eng.simulate(name, s, num)
     for name, s, runs in sc["rnd"]:
